@@ -269,7 +269,7 @@ Proof.
   (* st0 satisfies everything but alignment of the size; truncate_lw only needs the other parts *)
   assert (Htr : forall size rc1 st1, 0 <= size <= LIM -> zlen f <= size -> truncate_lw ok st0 size = (rc1, st1) -> rc1 = 0 ->
                 Inv st1 /\ psize st1 = EXF_PSIZE /\ slots st1 = []).
-  { intros size rc1 st1 Hs Hge Et Hrc1. subst rc1. unfold truncate_lw in Et. simpl in Et.
+  { intros size rc1 st1 Hs Hge Et Hrc1. subst rc1. unfold truncate_lw in Et. destruct (Z.ltb_spec size 0); [lia |]. simpl in Et.
     rewrite uw_small in Et by lia. rewrite roundup_ps in Et by (auto; lia).
     set (n := rup size EXF_PSIZE) in Et.
     assert (Hn : 0 <= n <= LIM) by (split; [apply rup_nonneg; lia | apply rup_le_aligned; try lia; apply LIM_mod; auto]).
@@ -321,7 +321,8 @@ Qed.
 Lemma truncate_lw_os : forall ok st size rc st', zlen (file st) = fsize st -> lens_ok (slots st) -> Bud ok st ->
   truncate_lw ok st size = (rc, st') -> os_facts ok st rc st' /\ pol st' = pol st.
 Proof.
-  intros ok st size rc st' Hfl HL HB E. unfold truncate_lw in E. cbv zeta in E.
+  intros ok st size rc st' Hfl HL HB E. unfold truncate_lw in E.
+  destruct (size <? 0); [inversion E; subst rc st'; split; [apply os_facts_same; discriminate | reflexivity] |]. cbv zeta in E.
   set (n := IW_ROUNDUP (uw 64 size) (psize st)) in E.
   destruct (Z.eqb_spec (fsize st) n) as [Heq | Hne].
   { inversion E; subst rc st'. split; [apply os_facts_same; discriminate | reflexivity]. }
@@ -365,6 +366,7 @@ Lemma ensure_size_lw_os : forall q ok st sz rc st', zlen (file st) = fsize st ->
   ensure_size_lw q ok st sz = (rc, st') -> os_facts ok st rc st'.
 Proof.
   intros q ok st sz rc st' Hfl HL HB E. unfold ensure_size_lw in E.
+  destruct (sz <? 0); [inversion E; subst rc st'; apply os_facts_same; discriminate |].
   destruct (fsize st >=? uw 64 sz).
   { inversion E; subst rc st'. apply os_facts_same; discriminate. }
   destruct (policy_call q (psize st) (pol st) sz (fsize st)) as [nsz pol'].
@@ -531,7 +533,7 @@ Lemma truncate_lw_refused : forall ok st size, Inv st -> Full st -> 0 <= size <=
   os_grow ok (rup size (psize st)) = false -> truncate_lw ok st size = (EXF_E_IO, st).
 Proof.
   intros ok st size HI HF Hs Hlt Hmo Hok. pose proof (inv_ps st HI) as HP. pose proof (PsOk_pos _ HP). pose proof LIM_val as EL.
-  unfold truncate_lw. rewrite uw_small by lia. rewrite roundup_ps by (auto; lia). cbv zeta.
+  unfold truncate_lw. destruct (Z.ltb_spec size 0); [lia |]. rewrite uw_small by lia. rewrite roundup_ps by (auto; lia). cbv zeta.
   destruct (Z.eqb_spec (fsize st) (rup size (psize st))); [lia |].
   destruct (Z.ltb_spec (fsize st) (rup size (psize st))); [| lia]. rewrite Hok. simpl.
   unfold initmmap. rewrite initmmap_from_full by exact HF. simpl. rewrite set_slots_id.
@@ -552,7 +554,7 @@ Proof.
   intros ok st size s tl HI Hs Hss Hlt Hmo Hg Hne Hm. pose proof (inv_ps st HI) as HP. pose proof (PsOk_pos _ HP). pose proof LIM_val as EL.
   pose proof (inv_file st HI) as Hfl.
   destruct (truncate_lw ok st size) as [rc st'] eqn:E. simpl.
-  unfold truncate_lw in E. rewrite uw_small in E by lia. rewrite roundup_ps in E by (auto; lia). cbv zeta in E.
+  unfold truncate_lw in E. destruct (Z.ltb_spec size 0); [lia |]. rewrite uw_small in E by lia. rewrite roundup_ps in E by (auto; lia). cbv zeta in E.
   set (n := rup size (psize st)) in *.
   destruct (Z.eqb_spec (fsize st) n); [lia |]. destruct (Z.ltb_spec (fsize st) n); [| lia]. rewrite Hg in E. simpl in E.
   replace (negb (maxoff st =? 0) && (n >? maxoff st)) with false in E
@@ -757,7 +759,7 @@ Qed.
 (* 16. the configured maximum *)
 Lemma truncate_lw_maxoff : forall ok st size, maxoff (snd (truncate_lw ok st size)) = maxoff st.
 Proof.
-  intros ok st size. unfold truncate_lw. cbv zeta.
+  intros ok st size. unfold truncate_lw. destruct (size <? 0); [reflexivity |]. cbv zeta.
   destruct (fsize st =? _); [reflexivity |]. destruct (fsize st <? _).
   - destruct (negb (maxoff st =? 0) && _); [reflexivity |]. destruct (negb (os_grow ok _)); [reflexivity |].
     destruct (initmmap ok (psize st) _ (slots st)) as [rc ss1]. destruct (rc =? 0); reflexivity.
